@@ -112,4 +112,18 @@ theorem C36_finding_node_val : (candidatePairs sites "server.Node.val").isEmpty 
 theorem C36_finding_pendingReq : (candidatePairs sites "uasc.SecureChannel.pendingReq").isEmpty = false := by
   decide +kernel
 
+/-- uasc.Config.SecurityMode: written by the server side of a renewal without a mutex, read by every sender -/
+theorem C36_finding_config_mode : (candidatePairs sites "uasc.Config.SecurityMode").isEmpty = false := by decide +kernel
+
+/-- uasc.channelInstance.maxBodySize: SetMaximumBodySize writes without the instance mutex the senders hold -/
+theorem C36_finding_maxBodySize : (candidatePairs sites "uasc.channelInstance.maxBodySize").isEmpty = false := by
+  decide +kernel
+
+/-- opcua.Subscription.RevisedPublishingInterval (likewise RevisedLifetimeCount, RevisedMaxKeepAliveCount):
+    ModifySubscription writes without a mutex, the publish loop reads under Client.subMux -/
+theorem C36_finding_sub_revised :
+    (candidatePairs sites "opcua.Subscription.RevisedPublishingInterval").isEmpty = false ∧
+    (candidatePairs sites "opcua.Subscription.RevisedLifetimeCount").isEmpty = false ∧
+    (candidatePairs sites "opcua.Subscription.RevisedMaxKeepAliveCount").isEmpty = false := by decide +kernel
+
 end Opcua.Props.C36
